@@ -64,7 +64,7 @@ def obligations(cx):
                 cx.ob("ideal-curve.%s.%d.shape" % (tag, i), [], blit(ok), kind='paths', function=name)
                 if ok:
                     want = cpf_expected(pv, Tt, comps.fn(j), PREC, Tp, pp, None, None, model)
-                    for qi, q in enumerate(returns(explore_thunk(r.ex, lambda: pf.fn(j), list(r.pc) + [j >= 0, j < var('ncomp', 'I')]))):
+                    for qi, q in enumerate(returns(explore_thunk(r.ex, lambda: r.ex.seq_get(pf, j), list(r.pc) + [j >= 0, j < var('ncomp', 'I')]))):
                         Jj = q.value
                         cx.ob("ideal-curve.%s.%d.point.%d" % (tag, i, qi), q.pc, band(eq(Jj[0], want[0]), eq(Jj[1], want[1]), eq(pf.n, var('ncomp', 'I'))), function=name,
                               statement="every point of an ideal diffusion curve is the standalone flux calculation at that composition with the selected model")
@@ -120,7 +120,7 @@ def obligations(cx):
         for i, r in enumerate(returns(ps)):
             v = r.value
             if isinstance(v, Seq):
-                qs = returns(explore_thunk(r.ex, lambda: v.fn(j), list(r.pc) + hyp + inv))
+                qs = returns(explore_thunk(r.ex, lambda: r.ex.seq_get(v, j), list(r.pc) + hyp + inv))
                 cx.ob("metric.%s.%d.element-paths" % (label, i), [], blit(len(qs) >= 1), kind='paths', function=fnm)
                 for qi, q in enumerate(qs):
                     cx.ob("metric.%s.%d.%d" % (label, i, qi), q.pc, band(eq(q.value, want), eq(v.n, n)), function=fnm, statement="metric by definition, element-wise")
@@ -129,7 +129,7 @@ def obligations(cx):
         cx.ob("metric.%s.paths" % label, [], blit(len(returns(ps)) >= 1), kind='paths', function=fnm)
     ps = cx.explore(lambda ex: ex.getattr(curve, 'permeate_composition'), contracts=ci, pre=[n >= 1])
     for i, r in enumerate(returns(ps)):
-        for qi, q in enumerate(returns(explore_thunk(r.ex, lambda: r.value.fn(j), list(r.pc) + hyp + inv))):
+        for qi, q in enumerate(returns(explore_thunk(r.ex, lambda: r.ex.seq_get(r.value, j), list(r.pc) + hyp + inv))):
             c_ = q.value
             cx.ob("metric.curve.permeate-composition.%d.%d" % (i, qi), q.pc, band(eq(c_.f['p'], yj), blit(c_.f['type'] == 'weight')), function='DiffusionCurve.permeate_composition',
                   statement="curve permeate composition = flux1/(flux1+flux2)")
